@@ -15,7 +15,12 @@ fn rand_packet(rng: &mut Rng, pid: u16, flags_p: u64, badsync_p: u64) -> Vec<u8>
 fn pid_pool(rng: &mut Rng, n: usize) -> Vec<u16> {
     let mut v: Vec<u16> = vec![];
     let special = [1u16, 0x10, 0x1ffe, 0x1fff, 0x11];
-    while v.len() < n { let p = if rng.chance(1, 3) { *rng.pick(&special) } else { rng.range(1, 0x1fff) as u16 }; if !v.contains(&p) { v.push(p); } }
+    while v.len() < n {
+        // a third of the PIDs differ from one already in the pool in a single bit of the 13-bit field (any bit: the PID
+        // straddles header bytes 1 and 2), so that a comparison that drops or adds a bit confuses two of them
+        let p = if !v.is_empty() && rng.chance(1, 3) { let q = *rng.pick(&v); q ^ (1u16 << rng.below(13)) }
+                else if rng.chance(1, 3) { *rng.pick(&special) } else { rng.range(1, 0x1fff) as u16 };
+        if p != 0 && !v.contains(&p) { v.push(p); } }
     v
 }
 
